@@ -202,7 +202,7 @@ def gen_lqr_case(rng, big=True, small=None, mpc=False):
     rhos = [r for r in U.RHOS if max(r, 1.0) ** T <= 1e4]
     dtype = "float64" if rng.random() < 0.9 else "float32"
     # magnitude ladders go well beyond "ordinary" sizes: the property says any p, c1, x_init, u_traj
-    case = dict(kind="lqr", B=Bn, T=T, ns=ns, nc=nc, sys=rng.choice(["lti", "lti", "lti_shared", "ltv", "ltv", "ltvc"]),
+    case = dict(kind="lqr", B=Bn, T=T, ns=ns, nc=nc, sys=rng.choice(["lti", "lti", "lti_shared", "ltv", "ltv", "ltvc", "ltvp"]),
                 dtype=dtype, condQ=rng.choice([1, 10, 1e3, 1e6]), qscale=rng.choice([1e-4, 1e-2, 1, 1, 1e2, 1e4]), rho=rng.choice(rhos),
                 astyle=rng.choice(["rand", "rand", "diag", "rot", "jordan", "zero"]), bscale=rng.choice([1e-2, 1, 1, 10]),
                 bstyle=rng.choice(["full", "full", "zerocol", "zero", "rank1"]), c1=rng.choice(["none", "rand", "rand"]),
@@ -217,6 +217,8 @@ def gen_lqr_case(rng, big=True, small=None, mpc=False):
         case["qstyle"] = "eye"                    # exact ties: equal eigenvalues
     elif r < 0.18 and dtype == "float64":
         case["qstyle"] = "psd0"                   # exact ties: state block exactly zero
+    elif r < 0.23 and dtype == "float64":
+        case["qstyle"] = "nearsym"                # 1e-6 relative asymmetry: what the code does = what the model does
     if rng.random() < 0.25:
         case["signpat"] = rng.choice(["nonneg", "nonpos", "nonpos0"])
     case["dup"] = Bn > 1 and rng.random() < 0.12
@@ -228,7 +230,7 @@ def gen_lqr_case(rng, big=True, small=None, mpc=False):
         case["defdt"] = "float64"                 # process-wide default dtype differs from the operands'
     case["tail"] = rng.random() < 0.3
     case["errs"] = rng.random() < 0.25
-    if case["sys"] == "ltvc":
+    if case["sys"] in ("ltvc", "ltvp"):
         case["c1"] = "rand"
     if case["sys"] in ("lti", "lti_shared") and rng.random() < 0.4:
         case["dt"] = rng.choice([2, 0.1, 0.01, 3])
@@ -351,6 +353,27 @@ def corpus():
                  astyle="rand", bstyle="full", dt=1, tail=True, qstyle=None, signpat=None, subclass=sub, defdt=dd)
         c["ops"] = [["solve", "none", {}], ["mutate", -1.0, 2.0, 0.75], ["solve", ["rand", 1.0, 1], {"style": "kw"}], ["copy", "deepcopy"],
                     ["solve", "zeros", {"grad": "no_grad"}]]
+        out.append(c)
+    # USER SUBCLASS OVERRIDING PROPERTIES: A, B, c1 computed from the clock, constructor arguments None
+    for sh in ((2, 4, 2, 2), (3, 6, 3, 1)):
+        c = neutral(gen_lqr_case(rng, small=sh))
+        c.update(sys="ltvp", dtype="float64", c1="rand", extra=2, dt=1, mixed=sh[0] > 2, qexpand=True, cscale=1)
+        c["ops"] = full_ops(c)
+        out.append(c)
+    # CALLBACKS THAT RETURN THEIR ARGUMENT / A VIEW OF IT (NLS, single batch): x+ = x and x+ = u[:ns]
+    for sysk, sh in (("echo", (1, 4, 2, 1)), ("echo", (1, 3, 1, 2)), ("view", (1, 4, 2, 3)), ("view", (1, 5, 1, 1))):
+        c = neutral(gen_lqr_case(rng, small=sh))
+        c.update(sys=sysk, dtype="float64", c1="none", mixed=False, dt=1, condQ=10, qscale=1, pscale=1, x0scale=1, c2=False, errs=False)
+        c["ops"] = [["solve", "none", {"xview": "slice"}], ["solve", ["rand", 1.0, 1], {"xview": "noncontig", "uview": "transposed", "grad": "requires_grad"}],
+                    ["scribble"], ["clock", 9, "set"], ["solve", "prev", {"style": "kw"}], ["otherx0", 5, 1.0], ["solve", "zeros", {"grad": "no_grad"}],
+                    ["newlqr"], ["solve", ["rand", 30.0, 3], {}]]
+        out.append(c)
+    # NEARLY SYMMETRIC Q (1e-6 relative asymmetry): implementation vs model, no optimality claim
+    for sysk, sh in (("lti", (2, 5, 2, 2)), ("ltv", (1, 4, 3, 1)), ("ltvp", (3, 3, 1, 2))):
+        c = neutral(gen_lqr_case(rng, small=sh))
+        c.update(sys=sysk, dtype="float64", c1="rand", mixed=False, dt=1, condQ=10, qscale=1, pscale=1, x0scale=1, cscale=1, bscale=1, rho=0.9,
+                 qstyle="nearsym", tail=False, errs=False, qshape="full")
+        c["ops"] = [["solve", "none", {}], ["solve", ["rand", 1.0, 1], {}], ["solve", "zeros", {"style": "kw"}]]
         out.append(c)
     # per-call dt on LTI systems
     c = neutral(gen_lqr_case(rng, small=(2, 5, 2, 2)))
@@ -534,6 +557,8 @@ def check_solution(ctx: Ctx, case, prob, refs, x, u, cost, tag, ubar=None, T=Non
         if abs(J - cn[b]) > 16 * (T + ns + nc) * eps * Ja + C_TOL * fl_c + 1e-300:
             ctx.fail(case, f"cost: {tag}: reported cost {cn[b]!r} != sum of stage costs {J!r} (item {b})")
             ok = False
+        if case.get("qstyle") == "nearsym":
+            continue            # not symmetric PD: no optimality claim; what the code does is compared with the model
         # optimality: stationarity + distance to the reference optimum + cost not above it
         g = r.grad(un[b])
         sg, _ = r.grad_scale(un[b])
@@ -584,6 +609,10 @@ class Snap:
 
     def changed(self):
         return [n for n, t, c in self.named if t.shape != c.shape or not torch.equal(t.detach(), c)]
+
+
+def sys_bufnames(case):
+    return ("tabA", "tabB", "tabc") if case.get("sys") == "ltvp" else ("_A", "_B", "_c1")
 
 
 def sys_tensors(system):
@@ -766,10 +795,11 @@ def _run_lqr_case(ctx: Ctx, case, lines, metas):
                 # STALE READS: the tensors the caller built the system from are updated in place; later solves must
                 # describe the current system
                 bufs = dict(system.named_buffers())
-                bufs["_A"].mul_(op[1])
-                bufs["_B"].mul_(op[2])
-                if bufs.get("_c1") is not None:
-                    bufs["_c1"].add_(op[3])
+                nA, nB, nc1 = sys_bufnames(case)
+                bufs[nA].mul_(op[1])
+                bufs[nB].mul_(op[2])
+                if bufs.get(nc1) is not None:
+                    bufs[nc1].add_(op[3])
                 prob = U.refresh_from_system(case, prob, system)
                 refs = [U.make_ref(prob, b, T) for b in range(Bn)]
                 first = None
@@ -836,8 +866,8 @@ def _run_lqr_case(ctx: Ctx, case, lines, metas):
                 ok &= check_solution(ctx, dict(case, focus=op), prob, refs, x2, u2, c2_, f"solve on the {mode} copy")
                 if mode != "copy":                          # independent objects: disturb the copy's system
                     b2 = dict(lq2.system.named_buffers())
-                    b2["_A"].mul_(-1.5)
-                    b2["_B"].mul_(0.5)
+                    b2[sys_bufnames(case)[0]].mul_(-1.5)
+                    b2[sys_bufnames(case)[1]].mul_(0.5)
                     lq2.system.systime = 1 if not prob["tv"] else min(1, L - 1)
                     lq2.system(x0.clone(), torch.zeros(Bn, nc, dtype=dt_t))
                     xo_, uo_, co_ = lq(x0, case["dt"])
@@ -947,7 +977,7 @@ def _run_lqr_case(ctx: Ctx, case, lines, metas):
                         if why:
                             ctx.fail(case, f"ownership: {tag}: returned {nm} {why}")
                             ok = False
-                if good and o["grad"] == "requires_grad":
+                if good and o["grad"] == "requires_grad" and case.get("qstyle") != "nearsym":
                     # the returned cost carries a usable autograd graph: backward runs, d cost / d x_init is the costate λ_0
                     # (envelope theorem at the optimum)
                     try:
@@ -973,7 +1003,7 @@ def _run_lqr_case(ctx: Ctx, case, lines, metas):
                         ctx.fail(case, f"autograd: {tag}: backward through the returned cost raised {type(e).__name__}: {str(e)[:140]}")
                         ok = False
                     ctx.count("lqr.solve.backward")
-                if good and nsolve == 1:
+                if good and nsolve == 1 and case.get("qstyle") != "nearsym":
                     ok &= perturb_test(ctx, case, refs, u, tag, ubar=un)
                 tl = [refs[b].tols(None if un is None else un[b], eps) for b in range(Bn)]
                 if first is None:
@@ -1035,7 +1065,7 @@ def _run_lqr_case(ctx: Ctx, case, lines, metas):
                             ctx.count("lqr.mixed-batch")
                         # HORIZON SPLIT (principle of optimality, theorem `lqr_tail_optimal`): the tail of the returned
                         # trajectory is what a fresh solve of the tail problem from the returned x_t gives
-                        if case.get("tail") and T >= 2 and good:
+                        if case.get("tail") and T >= 2 and good and case.get("qstyle") != "nearsym":
                             ok &= tail_check(ctx, case, prob, refs, first, tl, dt_call, tag)
                         # EXACT TIE: identical batch items get identical results
                         if case.get("dup") and Bn > 1 and good:
@@ -1047,8 +1077,9 @@ def _run_lqr_case(ctx: Ctx, case, lines, metas):
                                     ok = False
                                     break
                 else:
-                    # nominal / history independence, stated directly between two solves
-                    for b in range(Bn):
+                    # nominal / history independence, stated directly between two solves (not for a nearly symmetric Q: there the
+                    # code's result moves with the nominal at the size of the asymmetry — observation in the notes)
+                    for b in (range(Bn) if case.get("qstyle") != "nearsym" else ()):
                         du = np.abs(u[b].detach().double().numpy() - first[1][b])
                         if (du > C_TOL * eps * (tl[b][0] + first[3][b][0]) + 1e-300).any():
                             ctx.fail(case, f"history: {tag} differs from the first solve on the same system by {du.max():.3e} in u (item {b})")
@@ -1095,7 +1126,7 @@ def compare_lqr_model(ctx: Ctx, reps, metas):
         eps = eps_of(case)
         xm, um, cm, Km, km = U.parse_lqr_reply(rep, ns, nc, T)
         # model vs dense reference: a mismatch here is an infrastructure problem (both are mine), not a verdict
-        if (np.abs(um - r.u) > C_TOL * eps * tol_u + 1e-30).any():
+        if case.get("qstyle") != "nearsym" and (np.abs(um - r.u) > C_TOL * eps * tol_u + 1e-30).any():
             # the float64 condensed reference is itself inexact on the most ill-conditioned problems (cond(H) ~ 1e13+); the
             # 192-bit model is the exact value: keep comparing the implementation with the MODEL (the error scales below are
             # still the right magnitudes), only note that the numpy reference was off here
@@ -1158,13 +1189,12 @@ def check_mpc_loop(ctx: Ctx, case, rec: Recorder, tag, u_given=False, u_init=Non
             ctx.fail(case, f"mpc-loop: {tag}: iteration {i} does not start from the inputs of iteration {i - 1}")
             ok = False
     costs = [float(c[2].reshape(-1)[0]) for c in it]
-    best = 0
-    for i, c in enumerate(costs):
-        if c < costs[best]:
-            best = i
+    # TIES AT THE SELECTION BOUNDARY: "best so far" is any iteration attaining the minimal cost (every tie-break is admissible)
+    admissible = [i for i, c in enumerate(costs) if c == min(costs)]
     fin = calls[-1][0]
-    if fin is None or not torch.equal(fin, it[best][1]):
-        ctx.fail(case, f"mpc-loop: {tag}: the final solve does not start from the best-cost inputs (iteration {best} of {len(it)}, costs {costs})")
+    if fin is None or not any(torch.equal(fin, it[i][1]) for i in admissible):
+        ctx.fail(case, f"mpc-loop: {tag}: the final solve does not start from the inputs of an iteration of minimal cost "
+                       f"(minimal at {admissible} of {len(it)}, costs {costs})")
         ok = False
     return ok
 
@@ -1334,7 +1364,7 @@ def run_mpc_linear(ctx: Ctx, case, lines, metas):
                 if hasattr(twin.stepper, "patience_count"):
                     twin.stepper.patience_count = 99
                 twin.lqr.system.systime = 4 if not prob["tv"] else 0
-                dict(twin.lqr.system.named_buffers())["_B"].mul_(3.0)
+                dict(twin.lqr.system.named_buffers())[sys_bufnames(case)[1]].mul_(3.0)
                 twin = None
             good, x, u, cost, rec, costs = mpc_call(ctx, case, mpc, system, x0t, uin, ["contig", "noncontig", "transposed"][call % 3],
                                                     tag, steps_eff, kept, style=style if style != "default_dt" else "pos", grad=grad)
@@ -1648,7 +1678,7 @@ def stepper_corpus():
     `decreasing` threshold, losses just below / above `tol`, either sign of the loss, budgets around the length"""
     out = []
     for dec in (1e-3, 0.5):
-        for delta in (-0.5, -1e-3, 1e-3, 0.5):
+        for delta in (-0.5, -1e-3, -1e-6, 1e-6, 1e-3, 0.5):
             for base in (2.0, -3.0):
                 for pat in (1, 3):
                     r = dec * (1 + delta)
@@ -1729,6 +1759,134 @@ def run_stepper(ctx: Ctx, n):
 
 
 # ----------------------------------------------------------------------------- run / search / replay
+
+def run_default_objects(ctx: Ctx):
+    """STATE SHARED THROUGH DEFAULTS: several MPC objects (and steppers) built with the optional arguments OMITTED, used
+    interleaved; each must behave as the DOCUMENTED default says (stepper: 10 steps of which MPC reserves one, patience 5,
+    decreasing 1e-3, tol 1e-5; its own stepper object), whatever was built or run before"""
+    import random
+    P = U.pp()
+    objs = []
+    for k2, kind in enumerate(("lin", "nls", "lin")):
+        if kind == "lin":
+            c = gen_mpc_linear_case(random.Random(7100 + k2))
+            c.update(sys="lti", default_stepper=True, steps=10, patience=5, decreasing=1e-3, tol=1e-5, shared_stepper=False, user_stepper=None,
+                     subclass_mpc=False, subclass=None, signpat=None, qstyle=None, dup=False, defdt=None, verbose=False, c1="rand", qshape="full")
+            prob = U.build_problem(c)
+            system = U.make_system(c, prob)
+            mpc = P.module.MPC(system, torch.tensor(prob["Q"]), torch.tensor(prob["p"]), c["T"])        # stepper OMITTED
+            objs.append((c, prob, system, mpc))
+        else:
+            c = gen_mpc_nls_case(random.Random(7100 + k2))
+            c.update(default_stepper=True, steps=10, patience=5, decreasing=1e-3, tol=1e-5, shared_stepper=False, user_stepper=None,
+                     subclass_mpc=False, verbose=False, T=4, amp=1.0, phi=1.0)
+            sp = U.build_sin_problem(c)
+            system = U.make_sin_system(sp)
+            mpc = P.module.MPC(system, torch.tensor(sp["Q"]).unsqueeze(0), torch.tensor(sp["p"]).unsqueeze(0), c["T"])
+            objs.append((c, sp, system, mpc))
+    st_default = P.utils.ReduceToBason(10)          # patience, decreasing, tol OMITTED
+    if (st_default.max_steps, st_default.patience, st_default.decreasing, st_default.tol) != (10, 5, 1e-3, 1e-5):
+        ctx.fail({"kind": "defaults"}, f"constructor: ReduceToBason(10) has (max_steps, patience, decreasing, tol) = "
+                                       f"{(st_default.max_steps, st_default.patience, st_default.decreasing, st_default.tol)}, documented (10, 5, 1e-3, 1e-5)")
+    if len({id(o[3].stepper) for o in objs}) != len(objs):
+        ctx.fail(objs[0][0], "constructor: MPC objects built without a stepper share ONE stepper object")
+    for rnd in range(2):
+        for i, (c, data, system, mpc) in enumerate(objs):
+            tag = f"default-constructed MPC object #{i + 1} of {len(objs)} (round {rnd + 1})"
+            try:
+                check_mpc_constructor(ctx, c, mpc, mpc.stepper, 10)
+                kept = Kept()
+                if c["kind"] == "mpc_lin":
+                    x0t = torch.tensor(data["x0"])
+                    good, x, u, cost, rec, costs = mpc_call(ctx, c, mpc, system, x0t, None, "contig", tag, 10, kept)
+                    check_solution(ctx, c, data, [U.make_ref(data, 0, c["T"])], x, u, cost, tag)
+                else:
+                    good, x, u, cost, rec, costs = mpc_call(ctx, c, mpc, system, torch.tensor(data["x0"]).unsqueeze(0), None, "contig", tag, 10, kept)
+                    nls_feasible(ctx, c, data, x, u, cost, tag)
+            except Exception as e:
+                ctx.fail(c, f"raises: {tag} raised {type(e).__name__}: {str(e)[:160]}")
+            ctx.count("defaults.mpc-call")
+    ctx.note_case(("defaults",), True)
+
+
+def run_bitwise_repeat(ctx: Ctx):
+    """MODULE-LEVEL CONSTANTS WRITTEN BY ANOTHER OPERATION: two identical calls with every other public operation of the
+    modules in between (single-item all-ones shapes and batched, both dtypes, forward and backward, MPC, system forward,
+    set_refpoint, stepper) must agree BIT FOR BIT"""
+    import random
+    P = U.pp()
+    probes = []
+    for k2, (sh, dty) in enumerate((((1, 1, 1, 1), "float64"), ((1, 1, 1, 1), "float32"), ((2, 3, 2, 1), "float64"), ((1, 2, 1, 2), "float32"))):
+        c = neutral(gen_lqr_case(random.Random(7300 + k2), small=sh))
+        c.update(sys="lti", dtype=dty, c1="rand", mixed=False, dt=1, condQ=10, qscale=1, pscale=1, x0scale=1, cscale=1, bscale=1, rho=0.9, tail=False, errs=False)
+        prob = U.build_problem(c)
+        system = U.make_system(c, prob)
+        lq = U.make_lqr(c, prob, system)
+        x0 = torch.tensor(prob["x0"], dtype=getattr(torch, dty))
+        probes.append((c, prob, system, lq, x0, [t.detach().clone() for t in lq(x0, 1)]))
+    # everything else in between
+    others = [neutral(gen_lqr_case(random.Random(7400 + i), small=sh)) for i, sh in enumerate(((1, 1, 1, 1), (3, 2, 1, 1), (1, 3, 2, 2), (2, 1, 1, 3)))]
+    for i, c in enumerate(others):
+        c.update(sys=("lti", "ltv", "ltvp", "lti_shared")[i], dtype=("float64", "float32")[i % 2], c1="rand", mixed=False, dt=1, condQ=10, qscale=1, rho=0.9,
+                 tail=False, errs=False)
+        c["ops"] = [["solve", "none", {"grad": "inference"}], ["solve", ["rand", 1.0, 1], {"grad": "requires_grad"}], ["fwd", 2], ["solve", "zeros", {"style": "kw"}]]
+        run_lqr_case(ctx, c, [], [])
+    for c in mpc_corpus()[:2] + mpc_corpus()[-2:]:
+        (run_mpc_linear if c["kind"] == "mpc_lin" else run_mpc_nls)(ctx, c, [], [])
+    for (c, prob, system, lq, x0, before) in probes:
+        try:
+            after = lq(x0, 1)
+            same = all(torch.equal(a.detach(), b) for a, b in zip(after, before))
+        except Exception as e:
+            ctx.fail(c, f"raises: repeating an identical solve after other operations raised {type(e).__name__}: {str(e)[:140]}")
+            continue
+        if not same:
+            d = max(float((a.detach().double() - b.double()).abs().max()) for a, b in zip(after, before))
+            ctx.fail(c, f"repeat: an identical solve (batch {c['B']}, T {c['T']}, dims {c['ns']}x{c['nc']}, {c['dtype']}) repeated after other LQR / MPC / "
+                        f"system operations in the same process differs bit for bit from its first result (max difference {d:.3e})")
+        ctx.count("repeat.probe")
+    ctx.note_case(("bitwise-repeat",), True)
+
+
+def run_huge_batch(ctx: Ctx):
+    """SIZES BEYOND EVERY INTERNAL BLOCK: one-step problems (closed form u = -Quu^-1 (Qux x0 + pu)) with batches of
+    2^17+37 (quick) and 2^18+1, 2^20+1 (thorough) items; every item checked, the last n % 2^k items in particular"""
+    P = U.pp()
+    sizes = [2 ** 17 + 37] if ctx.quick else [2 ** 17 + 37, 2 ** 18 + 1, 2 ** 20 + 1]
+    for N in sizes:
+        ns, nc, n = 2, 1, 3
+        g = torch.Generator().manual_seed(N)
+        M = torch.randn(N, n, n, generator=g, dtype=torch.float64)
+        Q = M @ M.mT + 0.5 * torch.eye(n, dtype=torch.float64)
+        p = torch.randn(N, n, generator=g, dtype=torch.float64)
+        x0 = torch.randn(N, ns, generator=g, dtype=torch.float64)
+        A = torch.randn(ns, ns, generator=g, dtype=torch.float64)
+        Bm = torch.randn(ns, nc, generator=g, dtype=torch.float64)
+        c1 = torch.randn(ns, generator=g, dtype=torch.float64)
+        case = {"kind": "huge", "N": N}
+        try:
+            lti = P.module.LTI(A, Bm, torch.eye(ns, dtype=torch.float64), torch.zeros(ns, nc, dtype=torch.float64), c1, None)
+            x, u, cost = P.module.LQR(lti, Q, p, 1)(x0)
+            uw = -torch.linalg.solve(Q[:, ns:, ns:], (Q[:, ns:, :ns] @ x0.unsqueeze(-1)).squeeze(-1) + p[:, ns:])
+            tau = torch.cat((x0, uw), -1)
+            cw = 0.5 * (tau.unsqueeze(-2) @ Q @ tau.unsqueeze(-1)).reshape(N) + (tau * p).sum(-1)
+            xw = x0 @ A.mT + uw @ Bm.mT + c1
+            scale = 1 + tau.abs().amax(-1)
+            eu = ((u[:, 0] - uw).abs().amax(-1) / scale)
+            ex = ((x[:, 1] - xw).abs().amax(-1) / (1 + xw.abs().amax(-1)))
+            ec = (cost - cw).abs() / (1 + cw.abs())
+            bad = ((eu > 1e-9) | (ex > 1e-9) | (ec > 1e-9) | (x[:, 0] != x0).any(-1)).nonzero().flatten()
+            if tuple(u.shape) != (N, 1, nc) or tuple(x.shape) != (N, 2, ns) or tuple(cost.shape) != (N,):
+                ctx.fail(case, f"shape: batch of {N} one-step problems: returned x{tuple(x.shape)} u{tuple(u.shape)} cost{tuple(cost.shape)}")
+            elif len(bad):
+                i = int(bad[-1])
+                ctx.fail(case, f"huge-batch: batch of {N} one-step problems: {len(bad)} items are not the closed-form optimum, e.g. item {i} "
+                               f"(= N - {N - i}): u {u[i, 0].tolist()} vs {uw[i].tolist()}, cost {float(cost[i])!r} vs {float(cw[i])!r}")
+        except Exception as e:
+            ctx.fail(case, f"raises: batch of {N} one-step problems raised {type(e).__name__}: {str(e)[:140]}")
+        ctx.count(f"huge.batch.{N}")
+        ctx.note_case(("huge", N), True)
+
 
 def run_mode_order(ctx: Ctx):
     """MODE-POISONED CACHES: for keys (sizes, dtype) that nothing in this process has used yet, the FIRST solve runs under
@@ -1813,6 +1971,9 @@ def run(ctx: Ctx):
         c["corpus"] = True
     ctx.count("corpus.cases", len(cases))
     run_mode_order(ctx)          # must come first: its shape / dtype keys have to be fresh in the process
+    run_default_objects(ctx)
+    run_bitwise_repeat(ctx)
+    run_huge_batch(ctx)
     run_interleaved(ctx, 0)
     run_interleaved(ctx, 1 + ctx.seed)
     if os.environ.get("C14_ONLY_CORPUS"):      # rehearsal aid: what does the seed-independent part catch on its own?
@@ -1823,7 +1984,7 @@ def run(ctx: Ctx):
         if ctx.quick and rng.random() < 0.75:       # (the corpus already sweeps all 81 extents in {1,2,3}^4)
             continue
         cases.append(gen_lqr_case(rng, small=sh))
-    for _ in range(ctx.pick(55, 2000)):
+    for _ in range(ctx.pick(45, 2000)):
         cases.append(gen_lqr_case(rng, big=True))
     for _ in range(ctx.pick(4, 150)):
         cases.append(gen_big_case(rng))
@@ -1863,6 +2024,12 @@ def replay(ctx: Ctx, case) -> bool:
     c = dict(case["case"])
     c.pop("focus", None)
     n0 = len(ctx.failures)
+    if c.get("kind") in ("huge", "defaults"):
+        n0 = len(ctx.failures)
+        (run_huge_batch if c["kind"] == "huge" else run_default_objects)(ctx)
+        for f in ctx.failures[n0:]:
+            print("  fails:", f["what"])
+        return len(ctx.failures) == n0
     if c.get("ops") and c["ops"][0][0] == "interleaved":
         n0 = len(ctx.failures)
         run_interleaved(ctx, c["ops"][0][1])
